@@ -29,7 +29,7 @@ EXPLANATION = (
     'interval is at most 1000 nodes, and shouldStop returns true exactly on elapsed >= the limit selected by searchNeedMoreTime.'
     ' The limit shouldStop compares the elapsed time with is, on every path, bounded by the hard limit (hard, soft, or min(.., hard)).'
     ' Added later; (4) on every go path the option queue is drained (stopThread -> waitStop -> waitOptionsSet) before the protocol thread reads option values in computeTimeLimit / startThread.'
-    ' Added later; (5) Communicator::sendInitSearch must-writes the node / tbhit accumulators and every search passes it. (6) every position-decoding sweep of the on-demand tablebase generation gives up both for limit 0 (stop) and for a positive limit that has passed (ponderhit) - found and fixed defect D19.')
+    ' Added later; (5) Communicator::sendInitSearch must-writes the node / tbhit accumulators and every search passes it. (6) every position-decoding sweep of the on-demand tablebase generation gives up both for limit 0 (stop) and for a positive limit that has passed (ponderhit) - found and fixed defect D19. (7) the time origin of a search is the reception time of its go: unbroken chain clock reading -> SearchParams -> startThread -> Search::timeLimit -> tStart.')
 UNDECIDED = ('wall-clock latency and the virtual-clock bound "within one polling interval" (timing is not a static quantity); the '
              'behaviour of the search between two polls.')
 ASSUMPTIONS = ['input domain of the property: wtime/btime 1..10^7 ms, inc 0..10^5, movestogo 0..100, BufferTime and the time-usage parameters inside their declared Param<> ranges',
@@ -59,6 +59,7 @@ def run(fb, rep, tier):
     from . import C14
     C14.accumulators_reset(fb, rep, 'C06.5')
     c6_generation_polls_limit(fb, rep)
+    c7_time_origin(fb, rep)
 
 
 def _strip(t):
@@ -757,3 +758,80 @@ def c6_generation_polls_limit(fb, rep):
                 rep.ob(clause, 'K4 guard', '%s: phase %d of the generation gives up when the shared limit is %s' % (f.name.replace('TBGenerator', 'TBGen'), k, name), bool(live),
                        '%s:%s' % (f.file, (f.blocks[h].get('term') or {}).get('ln')), '%d `return false` in the phase, taken under this limit: lines %s' % (len(rets), live), f.sname)
     rep.floor(clause, 'phases of TBGenerator::generate', n_phase, 6)
+
+
+# ----------------------------------------------------------------------------- .7
+
+def c7_time_origin(fb, rep):
+    """K13 provenance of the time origin.  All limits are measured from Search::tStart.  The budget of a `go` runs from the
+    moment the command is received, not from the moment the engine thread gets round to searching (the previous search may
+    still be stopping, a hash resize may be pending).  So the chain reception time -> SearchParams -> startThread ->
+    Search::timeLimit -> tStart must be unbroken: (1) timeLimit stores one of its parameters in tStart; (2) startThread passes
+    one of its own parameters in that position, explicitly; (3) every caller of startThread passes a field of its
+    SearchParams argument there; (4) that field is initialised by the SearchParams constructor from its argument, which
+    the command handler takes from a clock reading made before the command is dispatched."""
+    clause = 'C06.7'
+    tl = fb.find1('Search::timeLimit')
+    st = fb.find1('EngineControl::startThread')
+    if rep.need(clause, tl, 'Search::timeLimit') is None or rep.need(clause, st, 'EngineControl::startThread') is None:
+        return
+    tl_params = [p_['id'] for p_ in tl.d.get('params', [])]
+    k = None
+    for b, i, e in tl.events():
+        if e.get('k') == 'asg' and e.get('op') == '=' and ap(e.get('l')) == 'this.tStart':
+            r = _strip(e.get('r'))
+            if isinstance(r, dict) and r.get('k') == 'var' and r.get('id') in tl_params:
+                k = tl_params.index(r['id'])
+    rep.ob(clause, 'K13 provenance', 'Search::timeLimit stores one of its parameters as the time origin tStart', k is not None, tl.where, 'parameter #%s' % (k + 1 if k is not None else '?'), tl.sname)
+    if k is None:
+        return
+    st_params = [p_['id'] for p_ in st.d.get('params', [])]
+    calls = [(b, i, e) for b, i, e in st.events() if e.get('k') == 'call' and cname(e) == 'Search::timeLimit']
+    rep.floor(clause, 'Search::timeLimit calls in startThread', len(calls), 1)
+    j = None
+    for b, i, e in calls:
+        a = e['args'][k] if len(e.get('args', [])) > k else None
+        a0 = _strip(a)
+        explicit = isinstance(a, dict) and not a.get('defarg') and isinstance(a0, dict) and a0.get('k') == 'var' and a0.get('id') in st_params
+        rep.ob(clause, 'K13 provenance', 'startThread hands its own start-time parameter to Search::timeLimit (not the default "now")', explicit, R.site(st, e),
+               'argument #%d: %s' % (k + 1, show(a, 60) if a is not None else 'defaulted'), st.sname)
+        if explicit:
+            j = st_params.index(a0['id'])
+    if j is None:
+        return
+    fld = None
+    n_callers = 0
+    for f in sorted((f for f in fb.funcs.values() if f.has_cfg and f.d.get('cls') == 'EngineControl'), key=lambda x: x.name):
+        for b, i, e in f.events():
+            if e.get('k') == 'call' and cname(e) == 'EngineControl::startThread' and len(e.get('args', [])) > j:
+                n_callers += 1
+                a = _strip(e['args'][j])
+                ok = isinstance(a, dict) and a.get('k') == 'mem' and isinstance(_strip(a.get('b')), dict) and _strip(a['b']).get('vk') == 'param' and 'SearchParams' in (_strip(a['b']).get('t') or '')
+                rep.ob(clause, 'K13 provenance', '%s passes the reception time carried by its SearchParams to startThread' % f.sname.split('::')[-1], ok, R.site(f, e), show(e['args'][j], 60), f.sname)
+                if ok:
+                    fld = a.get('f')
+    rep.floor(clause, 'callers of startThread', n_callers, 2)
+    if fld is None:
+        return
+    ctor = next((g for g in fb.funcs.values() if g.has_cfg and g.sname == 'SearchParams::SearchParams' and len(g.d.get('params', [])) == 1), None)
+    if rep.need(clause, ctor, 'SearchParams::SearchParams(S64)') is None:
+        return
+    cp = ctor.d['params'][0]['id']
+    from_arg = any(e.get('k') == 'minit' and e.get('f') == fld and (_strip(e.get('init')) or {}).get('id') == cp for _, _, e in ctor.events())
+    rep.ob(clause, 'K13 provenance', 'the SearchParams constructor stores its argument in that field', from_arg, ctor.where, fld, ctor.sname)
+    hc = fb.find1('UCIProtocol::handleCommand')
+    if rep.need(clause, hc, 'UCIProtocol::handleCommand') is None:
+        return
+    clock_locals = {v['id']: (b, i) for b, i, e in hc.events() if e.get('k') == 'decl' for v in e.get('vars', [])
+                    if isinstance(_strip(v.get('init')), dict) and _strip(v['init']).get('k') == 'call' and cname(_strip(v['init'])) == 'currentTimeMillis'}
+    n_sp = 0
+    for b, i, e in hc.events():
+        if e.get('k') == 'decl':
+            for v in e.get('vars', []):
+                init = v.get('init')
+                if isinstance(init, dict) and init.get('k') == 'ctor' and init.get('cls') == 'SearchParams' and init.get('args'):
+                    n_sp += 1
+                    a = _strip(init['args'][0])
+                    ok = isinstance(a, dict) and a.get('k') == 'var' and a.get('id') in clock_locals and hc.pos_dominates(clock_locals[a['id']], (b, i))
+                    rep.ob(clause, 'K13 provenance', 'handleCommand builds the SearchParams of a go from a clock reading taken when the command arrived', ok, R.site(hc, e), show(init, 60), hc.sname)
+    rep.floor(clause, 'SearchParams objects built in handleCommand', n_sp, 1)
